@@ -4,6 +4,7 @@ mod ev;
 mod gen;
 mod host;
 mod proj;
+mod rcon;
 mod props;
 mod src;
 mod structure;
